@@ -26,6 +26,9 @@ pub struct FbCase {
     /// accept or refuse it)
     #[serde(default = "default_backup_code")]
     pub backup_code: u32,
+    /// call `.handle(predicate)` on the builder before the strategy setter instead of after it
+    #[serde(default)]
+    pub handle_first: bool,
 }
 
 fn default_backup_code() -> u32 {
@@ -42,8 +45,9 @@ fn case_strategy(_tier: Tier) -> BoxedStrategy<FbCase> {
         50u32..99,
         0u64..3,
         100u32..200,
+        any::<bool>(),
     )
-        .prop_map(|(req_id, req_key, req_tag, value_serial, code_a, code_b, lat, backup_code)| FbCase {
+        .prop_map(|(req_id, req_key, req_tag, value_serial, code_a, code_b, lat, backup_code, handle_first)| FbCase {
             req_id,
             req_key,
             req_tag,
@@ -52,6 +56,7 @@ fn case_strategy(_tier: Tier) -> BoxedStrategy<FbCase> {
             code_b,
             lat,
             backup_code,
+            handle_first,
         })
         .boxed()
 }
@@ -111,6 +116,14 @@ async fn run_grid(case: &FbCase) -> (Vec<String>, usize, Vec<serde_json::Value>)
                     req: zero_req(),
                 };
                 let mut b = FallbackLayer::<Req, Resp, SErr>::builder().name("vcheck");
+                if case.handle_first {
+                    b = match pred {
+                    0 => b,
+                    1 => b.handle(|_e: &SErr| true),
+                    2 => b.handle(|_e: &SErr| false),
+                    _ => b.handle(|e: &SErr| e.code % 2 == 1),
+                    };
+                }
                 b = match strat {
                     0 => b.value(value.clone()),
                     1 => {
@@ -163,12 +176,14 @@ async fn run_grid(case: &FbCase) -> (Vec<String>, usize, Vec<serde_json::Value>)
                         })
                     }
                 };
-                b = match pred {
+                if !case.handle_first {
+                    b = match pred {
                     0 => b,
                     1 => b.handle(|_e: &SErr| true),
                     2 => b.handle(|_e: &SErr| false),
                     _ => b.handle(|e: &SErr| e.code % 2 == 1),
-                };
+                    };
+                }
                 let layer = b.build();
                 let mut svc = layer.layer(inner.clone());
                 let req = Req {
